@@ -17,6 +17,10 @@ class Evaluator(ABC):
         pass
 
 
+# Marks, in the cache, a program whose evaluation failed with a skipped exception
+_FAILED = object()
+
+
 def __tuplify__(element: Any) -> Any:
     if isinstance(element, List):
         return tuple(__tuplify__(x) for x in element)
@@ -42,12 +46,16 @@ class DSLEvaluator(Evaluator):
             self._cache[key] = {}
         evaluations: Dict[Program, Any] = self._cache[key] if self.use_cache else {}
         if program in evaluations:
-            return evaluations[program]
+            value = evaluations[program]
+            return None if value is _FAILED else value
         try:
             for sub_prog in program.depth_first_iter():
                 self._total_requests += 1
                 if sub_prog in evaluations:
                     self._cache_hits += 1
+                    if evaluations[sub_prog] is _FAILED:
+                        evaluations[program] = _FAILED
+                        return None
                     continue
                 if isinstance(sub_prog, Primitive):
                     evaluations[sub_prog] = self.semantics[sub_prog]
@@ -62,7 +70,7 @@ class DSLEvaluator(Evaluator):
                     evaluations[sub_prog] = fun
         except Exception as e:
             if type(e) in self.skip_exceptions:
-                evaluations[program] = None
+                evaluations[program] = _FAILED
                 return None
             else:
                 raise e
